@@ -51,4 +51,5 @@ package route
 //@   site call VarIntSize nth 2: assert arg(0) == *addr(payloadSize)
 //@   site call SizeTUint64 nth 0: assert arg(0) == h.AmtToForward
 //@   site call SizeTUint64 nth 1: assert arg(0) == h.OutgoingTimeLock
+//@   site call SizeTUint64 nth 2 as total-amount-sized-by-itself: assert arg(0) == h.TotalAmtMsat
 //@   ensures old(h.LegacyPayload) ==> result == 65
